@@ -568,6 +568,10 @@ class Interp:
     def const_item_value(self, cv):
         t = cv['ty']
         val = cv['val']
+        if cv.get('fn'):
+            n = cv['fn']
+            return FnItem({'k': 'fn', 'name': n, 'krate': None, 'local': n in self.fn, 'trait': None, 'targs': [],
+                           'res': {'name': n, 'args': '[]', 'gargs': [], 'local': n in self.fn}, 'rk': 'ok'})
         if val.startswith('Scalar('):
             v = int(val[7:-1], 16)
             w = ty_width(t)
@@ -1433,13 +1437,14 @@ class Interp:
 
     # ------------------------------------------------------------------ running functions
     class Frame:
-        __slots__ = ('id', 'f', 'sub', 'consts')
+        __slots__ = ('id', 'f', 'sub', 'consts', 'stop')
 
-        def __init__(self, id, f, sub, consts=None):
+        def __init__(self, id, f, sub, consts=None, stop=None):
             self.id = id
             self.f = f
             self.sub = sub
             self.consts = consts
+            self.stop = stop     # blocks at which a segment run ends (Outcome kind 'stop')
 
     def run(self, name, args, st=None, sub=None, consts=None, keep_locals=False):
         f = self.fn.get(name)
@@ -1474,6 +1479,25 @@ class Interp:
             m = o.st.mem
             for k in [k for k in m if k[0] == 'L' and k[1] == fid]:
                 del m[k]
+        return outs
+
+    def run_segment(self, f, start, stop, st, locals_, sub=None, consts=None, fid=None):
+        """interpret the part of `f` from block `start` up to (not including) any block in `stop`; `locals_` maps
+        local index -> value for the locals live on entry. Outcomes: 'stop' (val = block reached), 'ret', 'panic'...
+        The frame's locals are kept (o.frame); passing the `fid` of an earlier segment continues in that frame
+        (its locals are whatever `st` holds for it)."""
+        self.depth += 1
+        if fid is None:
+            fid = next(self.counter)
+        fr = Interp.Frame(fid, f, sub or {}, consts, stop=frozenset(stop))
+        for i, a in locals_.items():
+            st.mem[('L', fid, i)] = a
+        try:
+            outs = self.exec_block(fr, start, st, frozenset())
+        finally:
+            self.depth -= 1
+        for o in outs:
+            o.frame = fid
         return outs
 
     def loops_of(self, f):
@@ -1565,6 +1589,8 @@ class Interp:
     def exec_block(self, fr, bi, st, visiting):
         f = fr.f
         while True:
+            if fr.stop is not None and bi in fr.stop:
+                return [Outcome(st, 'stop', bi)]
             if bi in visiting:
                 return self.loop_reentry(fr, bi, st, visiting)
             lp = self.loops_of(f)
